@@ -251,6 +251,10 @@ def run(ck: Check):
     finally:
         shutil.rmtree(work, ignore_errors=True)
     ck.cov["model_cases"] = len(cases)
+    model = run_model(cases)
+    for c, m, i in zip(cases, model, impl):
+        if m != i:
+            ck.mismatch("cli", c, m, i)
     return ck.finish(level="proof", rule=RULE, assumptions=[
         "argparse and importlib themselves are modelled (as configured by Lithium, on the stated token domain: "
         "full option names, no abbreviations, no '--', no clustered short flags), not verified"])
